@@ -8,6 +8,7 @@ import (
 
 	"github.com/hashicorp/hcl/v2"
 	"github.com/hashicorp/hcl/v2/hclsyntax"
+	"github.com/zclconf/go-cty/cty"
 
 	"hx/lib"
 )
@@ -70,6 +71,28 @@ func run(cx *lib.Ctx) {
 	}
 	for k, v := range stats {
 		res.Distribution["gen:"+k] = v
+	}
+	// directed: for expressions over collections with no element, whose `if` clause is wrong as a whole (null,
+	// not a bool, not evaluable) — the clause is checked even when there is nothing to filter — or fine
+	{
+		r := cx.R.Fork()
+		v := func(n string) *lib.Node { return &lib.Node{K: "var", S: n} }
+		colls := []*lib.Node{{K: "tuple"}, {K: "object"}, v("none"), v("nomap"), v("some")}
+		conds := []*lib.Node{{K: "null"}, {K: "str", S: "yes"}, {K: "num", S: "1"}, v("enabled"), v("undefined_name"), {K: "bool", S: "true"}, {K: "tuple"},
+			{K: "binop", S: "==", Kids: []*lib.Node{v("x"), {K: "null"}}}}
+		for _, coll := range colls {
+			for _, cond := range conds {
+				sc := GenScope(r, false, false)
+				sc.Vars["none"] = cty.ListValEmpty(cty.String)
+				sc.Vars["nomap"] = cty.MapValEmpty(cty.Number)
+				sc.Vars["some"] = cty.ListVal([]cty.Value{cty.StringVal("a")})
+				sc.Vars["enabled"] = cty.NullVal(cty.Bool)
+				one(cx, r, &lib.Node{K: "fortuple", S: "x", Kids: []*lib.Node{coll, v("x"), cond}}, sc, false)
+				one(cx, r, &lib.Node{K: "forobj", S: "x", S2: "k", Kids: []*lib.Node{coll, {K: "str", S: "key"}, v("x"), cond}, Flag: true}, sc, false)
+				one(cx, r, &lib.Node{K: "forobj", S: "x", S2: "k", Kids: []*lib.Node{coll, {K: "tmpl", Kids: []*lib.Node{{K: "interp", Kids: []*lib.Node{v("k")}}}}, v("x"), cond}}, sc, false)
+				res.Count("directed-for-over-nothing")
+			}
+		}
 	}
 	corrParseX(cx)
 	heredocOracle(cx)
